@@ -56,6 +56,12 @@ CHECKS = {
         note="Trusts the 40-line Fraction model in checks/c07.py and a 1e-9 relative tolerance; 0/0 pairs accept NaN or 0.",
         ref="2 C07",
     ),
+    "C14": dict(
+        technique="property-based testing with harness-owned schedules: Hypothesis code bases re-analysed in fresh processes under generated (hash seed, directory-order shuffle, platform/entry permutation) triples; all schedules must agree",
+        text="Generated-input search over order-sensitive code bases (same-named headers in several -I directories, byte-identical twins, >=3 platforms). Each input is analysed in fresh interpreter processes under several generated schedules - PYTHONHASHSEED in {0..3, random}, os.scandir/os.listdir shuffled by a seed through a wrapper, [platform.*] tables and database entries permuted - and the platform-set table, printed metrics and distance matrix, per-line attribution, coverage export, duplicate groups and tree rows must be equal after parsing. Bounded sample of schedules, no exhaustive interleaving.",
+        note="The harness owns the schedule (hash seed, enumeration order, input order); outputs are compared semantically, raw float metrics with 1e-9 tolerance.",
+        ref="2 C14",
+    ),
     "C15": dict(
         technique="property-based testing: Hypothesis code bases with alias decorations (file/dir symlinks, ./ and d/../d segments); metamorphic comparison with the canonical twin",
         text="Generated-input search over code bases in which compile commands, -I options and include directives reach files through symlinks and redundant path segments, and observer headers (#pragma once + seen-before macro) are included through two spellings. Per-line attribution keyed by real file, get_setmap and membership must equal those of the canonical twin (aliases replaced, links removed); links to outside are not members; cbi-tree link rows and cbi-cov entries are checked on a CLI subset. Bounded exploration.",
